@@ -59,12 +59,16 @@ func runRevSuffix(args []string) {
 	}
 	_, err = core.ReadRecords(f, runtime.NumCPU(), func(rec *core.Record) {
 		inner := rec.RIP != nil && rec.RIQ != nil && rec.RII != nil
-		if !inner && (rec.RSS == nil || rec.MSZ == nil) {
+		set := rec.SSL != nil && rec.MSZ != nil
+		if !inner && !set && (rec.RSS == nil || rec.MSZ == nil) {
 			return
 		}
 		wantStrat, tag := "UseReverseSuffix", "revsuffix"
 		if inner {
 			wantStrat, tag = "UseReverseInner", "revinner"
+		}
+		if set {
+			wantStrat, tag = "UseReverseSuffixSet", "revsuffixset"
 		}
 		pat := rec.Re.Pattern()
 		std, err := regexp.Compile(pat)
@@ -91,7 +95,19 @@ func runRevSuffix(args []string) {
 		if re, perr := syntax.Parse(pat, syntax.Perl); perr == nil {
 			comp := nfa.NewCompiler(nfa.CompilerConfig{UTF8: true, Anchored: false, DotNewline: false, MaxRecursionDepth: 100})
 			if n, nerr := comp.CompileRegexp(re); nerr == nil {
-				if inner {
+				if set {
+					var ls []literal.Literal
+					for _, l := range rec.SSL {
+						bb := make([]byte, len(l))
+						for i, x := range l {
+							bb[i] = byte(x)
+						}
+						ls = append(ls, literal.NewLiteral(bb, true))
+					}
+					if x, err := meta.NewReverseSuffixSetSearcher(n, literal.NewSeq(ls...), lazy.DefaultConfig(), *rec.MSZ); err == nil {
+						direct = x
+					}
+				} else if inner {
 					pre, e1 := syntax.Parse(rec.RIP.Pattern(), syntax.Perl)
 					suf, e2 := syntax.Parse(rec.RIQ.Pattern(), syntax.Perl)
 					if e1 == nil && e2 == nil {
